@@ -266,6 +266,10 @@ Proof.
   intros R2 R1 x y Hx Hy. rewrite R1. symmetry. apply R2; assumption.
 Qed.
 
+Lemma derive_block_dlist fuel V l cs idx :
+  derive (S fuel) V (SBlock l) cs idx = dlist (fun s i => derive fuel V s cs i) V l (Some sid) idx.
+Proof. reflexivity. Qed.
+
 Lemma derive_func_layout f f' : layout_eq_func f f' -> forall cs,
   snd (derive_func f' cs) = snd (derive_func f cs) /\
   oeq_ren (func_vars f) (fun x => x) (fst (derive_func f cs)) (fst (derive_func f' cs)).
@@ -275,14 +279,11 @@ Proof.
   assert (SE : same_elems (func_vars f) (func_vars f')).
   { apply nodup_same_elems; [apply An_func.func_vars_NoDup|apply An_func.func_vars_NoDup|exact HS]. }
   destruct (derive_perm (func_vars f) (func_vars f') SE (S depth_fuel) (SBlock (f_body f')) cs 0) as [E1 R1].
-  rewrite <- (derive_func_block f' cs) in E1, R1.
   (* the two bodies over the variable list of f *)
   pose proof (HL depth_fuel depth_fuel cs 0 (Some sid) (Some sid) F F'
                 (ofin_sid _) (ofin_sid _) (oeqV_refl _ _)) as [E2 R2].
-  change (dlist (fun s i => derive depth_fuel (func_vars f) s cs i) (func_vars f) (f_body f) (Some sid) 0)
-    with (derive_func f cs) in E2, R2.
-  change (dlist (fun s i => derive depth_fuel (func_vars f) s cs i) (func_vars f) (f_body f') (Some sid) 0)
-    with (derive (S depth_fuel) (func_vars f) (SBlock (f_body f')) cs 0) in E2, R2.
+  rewrite (derive_func_block f), (derive_func_block f').
+  rewrite !derive_block_dlist in E1, R1 |- *.
   split; [congruence|]. exact (oeq_compose _ _ _ _ R2 R1).
 Qed.
 
@@ -336,7 +337,7 @@ Theorem analyse_empty_statement :
     results_agree (func_vars (with_body f (l1 ++ l2))) (fun x => x) r r'.
 Proof.
   intros FR VS VC f l1 l2 stop stop' r r' OK F Han Han'.
-  apply (analyse_layout FR VS VC _ _ stop stop' r r' OK); [|exact Han|exact Han'].
+  refine (analyse_layout FR VS VC _ _ stop stop' r r' OK _ Han Han').
   apply layout_eq_func_intro.
   - rewrite !flat_map_app. reflexivity.
   - intros V. apply seml_sym, layout_insert_skip.
@@ -356,7 +357,7 @@ Theorem analyse_braces :
     results_agree (func_vars (with_body f (l1 ++ l2 ++ l3))) (fun x => x) r r'.
 Proof.
   intros FR VS VC f l1 l2 l3 stop stop' r r' OK F F' Han Han'.
-  apply (analyse_layout FR VS VC _ _ stop stop' r r' OK); [|exact Han|exact Han'].
+  refine (analyse_layout FR VS VC _ _ stop stop' r r' OK _ Han Han').
   apply layout_eq_func_intro.
   - rewrite !flat_map_app. cbn [flat_map stmt_vars]. rewrite app_nil_r. reflexivity.
   - intros V. apply seml_sym, layout_flatten.
@@ -400,12 +401,13 @@ Example rename_func_instance :
   (exists r r', analyse f false = ROk r /\ analyse (pfm_func f) false = ROk r' /\ fr_infinite r = false) /\
   Forall (fuel_ok depth_fuel) (f_body f).
 Proof.
-  cbv zeta. repeat split.
+  cbv zeta. split; [|split; [|split; [|split; [|split; [|split; [|split; [|split]]]]]]].
   - intros a b Ha Hb. cbn in Ha, Hb.
     repeat (destruct Ha as [<-|Ha]; [repeat (destruct Hb as [<-|Hb]; [cbn; congruence|]); destruct Hb|]).
     destruct Ha.
   - unfold func_ok. vm_compute. repeat constructor; discriminate.
   - unfold func_ok. vm_compute. repeat constructor; discriminate.
+  - vm_compute. reflexivity.
   - vm_compute. reflexivity.
   - vm_compute. reflexivity.
   - match goal with |- exists r r', ?a = ROk r /\ ?b = ROk r' /\ _ =>
